@@ -27,7 +27,7 @@ BL_EPS = {"blacklist", "refundUsers", "unblacklist"}
 PROPS = {
     "C01": dict(
         title="Ticket-payment solvency",
-        lean=["LP.Props.C01", "LP.Props.C01reach", "LP.Props.C01reachV2", "LP.Props.C01reachV1", "LP.Props.C01reachG1", "LP.Props.C14reach", "LP.Props.C14reachG", "LP.Props.AllVariants", "LP.Props.C09nothing", "LP.Props.C01receipts", "LP.Props.C01owner", "LP.Props.C01zero", "LP.Props.C14zero", "LP.Props.C01zeroV1", "LP.Props.C01zeroG1", "LP.Props.C14zeroG", "LP.Props.C14zeroGfull", "LP.Props.C01zeroG1full", "LP.Props.C01zeroV1more"],
+        lean=["LP.Props.C01", "LP.Props.C01reach", "LP.Props.C01reachV2", "LP.Props.C01reachV1", "LP.Props.C01reachG1", "LP.Props.C14reach", "LP.Props.C14reachG", "LP.Props.AllVariants", "LP.Props.C09nothing", "LP.Props.C01receipts", "LP.Props.C01owner", "LP.Props.C01zero", "LP.Props.C14zero", "LP.Props.C01zeroV1", "LP.Props.C01zeroG1", "LP.Props.C14zeroG", "LP.Props.C14zeroGfull", "LP.Props.C01zeroG1full", "LP.Props.C01zeroV1more", "LP.Props.C01zeroG1more"],
         profiles=[("life", ALL_VARIANTS), ("chunks", ALL_VARIANTS)],
         R={"xf.pay": {"claim", "claimPayment", "blacklist", "refundUsers"},
            "st": ({"claim", "claimPayment"}, FUNDS_MSGS)},
@@ -35,7 +35,7 @@ PROPS = {
     ),
     "C02": dict(
         title="Launchpad-token solvency",
-        lean=["LP.Props.C02", "LP.Props.C01reachV2", "LP.Props.C01reachV1", "LP.Props.C01reachG1", "LP.Props.C13reachV2", "LP.Props.C14reachG", "LP.Props.C14feeLp", "LP.Props.C02reach", "LP.Props.AllVariants2", "LP.Props.C16reach", "LP.Props.C01receipts", "LP.Props.C01owner", "LP.Props.C01zero", "LP.Props.C01zeroV1more"],
+        lean=["LP.Props.C02", "LP.Props.C01reachV2", "LP.Props.C01reachV1", "LP.Props.C01reachG1", "LP.Props.C13reachV2", "LP.Props.C14reachG", "LP.Props.C14feeLp", "LP.Props.C02reach", "LP.Props.AllVariants2", "LP.Props.C16reach", "LP.Props.C01receipts", "LP.Props.C01owner", "LP.Props.C01zero", "LP.Props.C01zeroV1more", "LP.Props.C01zeroG1more"],
         profiles=[("life", ALL_VARIANTS), ("reserve", GUAR)],
         R={"st": [({"deposit"}, None), ({"claim", "claimPayment"}, FUNDS_MSGS)],
            "xf.lp": {"claim", "claimPayment"}, "lock": ANY},
@@ -119,7 +119,7 @@ PROPS = {
     ),
     "C13": dict(
         title="Vesting is path-independent, monotone, bounded",
-        lean=["LP.Props.C13", "LP.Props.C01reachG1", "LP.Props.C13reachV2", "LP.Props.C01owner", "LP.Props.C01zeroG1full"],
+        lean=["LP.Props.C13", "LP.Props.C01reachG1", "LP.Props.C13reachV2", "LP.Props.C01owner", "LP.Props.C01zeroG1full", "LP.Props.C01zeroG1more"],
         profiles=[("vest", ["guarV1", "guarV2"]), ("life", ["guarV1", "guarV2"])],
         R={"st": [({"setSchedule1", "setSchedule2"}, None), ({"claim"}, ["Already claimed all", "negative", "cannot subtract", "claimable - claimed", "insufficient funds"])],
            "xf.lp": {"claim"}},
